@@ -337,7 +337,7 @@ def shard(ctx: Ctx, sh: int, nshards: int, n: int) -> Stats:
             for sig, det in fails:
                 st.fail(sig, case, det[:1800])
 
-        drive(strategy(), one, ctx.shard_seed(sh, 31), n)
+        drive(strategy(), one, ctx.shard_seed(sh, 31), n, chunk=4000)
     return st
 
 
